@@ -79,7 +79,7 @@ LEVEL_TEXT = ("Exploration: about 2 600 (quick) / 88 000 (thorough) generated ra
               "ways each and compared with the exact solution, with each other, with the solute balance and with the time bookkeeping; no "
               "exhaustive claim. CVODE configurations inside the two known findings are only checked for the tolerance-free clauses.")
 FLOORS = {"quick": 300, "thorough": 3000}
-SHARDS = {"quick": 4, "thorough": 4}
+SHARDS = {"quick": 8, "thorough": 16}
 BUDGET = {"quick": (300, 30), "thorough": (5000, 500), "replay": (1, 1)}   # (closed-form, library) cases per shard
 
 SALTS = {"NaCl": {"Na": 1, "Cl": 1}, "KBr": {"K": 1, "Br": 1}, "LiCl": {"Li": 1, "Cl": 1}, "KNO3": {"K": 1, "N": 1},
